@@ -114,6 +114,19 @@ fn check(text: &[u8], rep: &mut Reporter, case_idx: u64) {
         }
     }
     let mut schedules: Vec<Schedule> = (1..=16).map(Schedule::Chunk).collect();
+    // record-, page- and pipe-sized sinks, and one-off short accepts of a page or more
+    for k in [28usize, 36, 56, 72, 512, 4095, 4096, 4097, 8192, 65_536] {
+        if k < canonical.len() {
+            schedules.push(Schedule::Chunk(k));
+        }
+    }
+    for i in 0..ncalls.min(200) {
+        for t in [4096usize, 4100, 8192, 28, 36, 72] {
+            if canonical.len() > t + 4096 || (t < 100 && canonical.len() > 200 && ncalls <= 40) {
+                schedules.push(Schedule::ShortTake(i, t));
+            }
+        }
+    }
     for i in 0..ncalls {
         schedules.push(Schedule::ShortOnce(i));
         schedules.push(Schedule::FailAt(i));
